@@ -525,6 +525,13 @@ func (w *World) executeSQL(c *Call, pt *Point, dev Deviation) {
 		c.reply <- Reply{Err: err, Delay: FailLatency}
 		return
 	}
+	if s.Dubious && from != c.Target {
+		pt.Fails = true
+		err := mysqlErr(1040, "Too many connections")
+		w.note(pt, c, false, err)
+		c.reply <- Reply{Err: err, Delay: FailLatency}
+		return
+	}
 	switch dev.Kind {
 	case DevErr:
 		err := sqlErrFlavour(dev.Arg)
